@@ -351,6 +351,7 @@ where
 ///
 /// Implements a [`quic::RecvStream`] backed by a [`quinn::RecvStream`].
 pub struct RecvStream {
+    id: StreamId,
     stream: Option<quinn::RecvStream>,
     read_chunk_fut: ReadChunkFuture,
     is_0rtt: bool,
@@ -368,7 +369,11 @@ type ReadChunkFuture = ReusableBoxFuture<
 impl RecvStream {
     fn new(stream: quinn::RecvStream) -> Self {
         let is_0rtt = stream.is_0rtt();
+        let num: u64 = stream.id().into();
         Self {
+            // The stream is moved into the read future while a read is pending,
+            // so its id is kept here.
+            id: num.try_into().expect("invalid stream id"),
             stream: Some(stream),
             // Should only allocate once the first time it's used
             read_chunk_fut: ReusableBoxFuture::new(async { unreachable!() }),
@@ -415,9 +420,7 @@ impl quic::RecvStream for RecvStream {
 
     #[cfg_attr(feature = "tracing", instrument(skip_all, level = "trace"))]
     fn recv_id(&self) -> StreamId {
-        let num: u64 = self.stream.as_ref().unwrap().id().into();
-
-        num.try_into().expect("invalid stream id")
+        self.id
     }
 }
 
